@@ -190,10 +190,19 @@ pub fn run(ctx: &Ctx) -> Collector {
         let (short, sl, long) = r::block_layout(v, e);
         let mut off = 0;
         for b in 0..short + long {
-            let mut d = vec![0u8; dc];
-            d[off] = (b % 255 + 1) as u8;
-            datas.push(d);
-            off += if b < short { sl } else { sl + 1 };
+            let bl = if b < short { sl } else { sl + 1 };
+            // the only non-zero byte of the whole data at the start, in the middle, and at each of the last nine
+            // positions of block b (a block that is zero except for its tail; a zero block after a non-zero one)
+            let mut ps: Vec<usize> = vec![0, 1, bl / 2, bl / 3, 7.min(bl - 1), 8.min(bl - 1)];
+            ps.extend((bl.saturating_sub(9)..bl).collect::<Vec<_>>());
+            ps.sort();
+            ps.dedup();
+            for p in ps {
+                let mut d = vec![0u8; dc];
+                d[off + p] = ((b + p) % 255 + 1) as u8;
+                datas.push(d);
+            }
+            off += bl;
         }
         // the block layout (Table 9 split, interleave order) is C02's concern: C07 judges the EC codewords
         // only where the position-dependent data set shows that the layout is the standard one
@@ -203,7 +212,7 @@ pub fn run(ctx: &Ctx) -> Collector {
             let got = match subject::guarded(|| verif::structure(data, ECLS[e], VERSIONS[v - 1]).to_vec()) {
                 Ok(g) => g,
                 Err(msg) => {
-                    viol(&col, (2, (pi * 200 + di) as u64), "structure-panic", format!("block structuring panicked for v{} level {}: {}", v, e, msg), json!({"kind": "structure", "version": v, "ecl": e, "data_hex": crate::util::hex(data)}));
+                    viol(&col, (2, (pi * 4000 + di) as u64), "structure-panic", format!("block structuring panicked for v{} level {}: {}", v, e, msg), json!({"kind": "structure", "version": v, "ecl": e, "data_hex": crate::util::hex(data)}));
                     continue;
                 }
             };
@@ -228,14 +237,14 @@ pub fn run(ctx: &Ctx) -> Collector {
                 let dl = blk.len() - ec;
                 let want = r::rs_remainder(&blk[..dl], ec);
                 if blk[dl..] != want[..] {
-                    viol(&col, (2, (pi * 200 + di) as u64), "block-ec", format!("v{} level {} block {} (data {}, ec {}): emitted EC codewords are not the remainder", v, e, bi, dl, ec), json!({"kind": "structure", "version": v, "ecl": e, "data_hex": crate::util::hex(data)}));
+                    viol(&col, (2, (pi * 4000 + di) as u64), "block-ec", format!("v{} level {} block {} (data {}, ec {}): emitted EC codewords are not the remainder", v, e, bi, dl, ec), json!({"kind": "structure", "version": v, "ecl": e, "data_hex": crate::util::hex(data)}));
                     break;
                 }
             }
         }
     });
     col.evals_add(n_c.load(Ordering::Relaxed));
-    col.space(json!({"name": "interleaver", "cases": n_c.load(Ordering::Relaxed), "what": "hooked block structuring for all 160 (version, level) with dense, zero, sparse and one-byte-per-block data; EC part of every block compared with R", "exhaustive": true}));
+    col.space(json!({"name": "interleaver", "cases": n_c.load(Ordering::Relaxed), "what": "hooked block structuring for all 160 (version, level) with dense, zero, sparse data and data whose only non-zero byte sits at the start, middle or one of the last nine positions of one block; EC part of every block compared with R", "exhaustive": true}));
 
     // ---- (d) public API tie-in: all single-bit payloads at full capacity, byte mode, v1..v4 (thorough v1..v6)
     let vmax = if thorough { 5 } else { 3 };
